@@ -889,6 +889,10 @@ bool opt_verify(opt_t * opt)
             err("%p: command timeout must be >= 0\n");
             verified = false;
         }
+        if (opt->fanout < 1) {
+            err("%p: fanout must be > 0\n");
+            verified = false;
+        }
     }
 
     /* PCP: must have source and destination filename(s) */
